@@ -41,19 +41,39 @@ TIERS = {
 
 # ------------------------------------------------------------------ harness
 def harness():
-    return vlib.build_harness('ivh_avl', ['ivh_avl.c'], 'plain')
+    """The harness binary for /repo's current working tree (content-hashed by
+    vlib).  The build cache is shared and pruned by concurrent checks, so a
+    build that loses its directory half-way is simply repeated."""
+    err = None
+    for _ in range(4):
+        try:
+            return vlib.build_harness('ivh_avl', ['ivh_avl.c'], 'plain')
+        except (vlib.MachineryError, OSError) as e:
+            err = e
+            if isinstance(e, vlib.MachineryError) and "No such file" not in str(e) and \
+                    vlib.tree_hash() == getattr(harness, "failed", None):
+                break                                   # the same tree failed twice: a real build error
+            harness.failed = vlib.tree_hash()
+            time.sleep(0.5)
+    raise vlib.MachineryError("cannot build ivh_avl: %s" % err)
 
 
 def run_harness(script_path, trace_path, timeout=600):
     """Returns (status, nlines): status 'ok' | 'crash:<how>'.  The trace is
     cut back to its complete lines."""
-    exe = harness()          # content-hashed: rebuilt if the tree changed or the cache was pruned
-    try:
-        r = subprocess.run([exe, "-i", script_path, "-o", trace_path], stdout=subprocess.PIPE,
-                           stderr=subprocess.STDOUT, text=True, timeout=timeout)
-        rc, out = r.returncode, r.stdout
-    except subprocess.TimeoutExpired:
-        rc, out = -14, "driver timeout"
+    rc, out = 2, ""
+    for _ in range(4):
+        exe = harness()
+        try:
+            r = subprocess.run([exe, "-i", script_path, "-o", trace_path], stdout=subprocess.PIPE,
+                               stderr=subprocess.STDOUT, text=True, timeout=timeout)
+            rc, out = r.returncode, r.stdout
+        except subprocess.TimeoutExpired:
+            rc, out = -14, "driver timeout"
+        except OSError as e:                            # binary pruned between build and exec
+            rc, out = 2, str(e)
+            continue
+        break
     if rc not in (0,) and rc >= 0:
         raise vlib.MachineryError("ivh_avl failed on %s: rc=%d %s" % (script_path, rc, out[-500:]))
     status = "ok"
